@@ -717,7 +717,9 @@ func GetAPSource(val *fastjson.Value) Source {
 		s.Content = cont
 	}
 	if mimeBytes := val.Get("source", "mediaType").GetStringBytes(); len(mimeBytes) > 0 {
-		s.MediaType.UnmarshalJSON(mimeBytes)
+		// NOTE: these are the bytes of the decoded string, not a JSON text: MimeType.UnmarshalJSON would strip
+		// the quotes the media type itself begins or ends with (text/x; charset="utf-8")
+		s.MediaType = MimeType(mimeBytes)
 	}
 
 	return s
